@@ -208,6 +208,7 @@ impl<R: Read + Seek> ReadBox<&mut R> for EsdsBox {
         let end = start + size;
         while current < end {
             let (desc_tag, desc_size) = read_desc(reader)?;
+            check_desc_size(reader, desc_size, end)?;
             match desc_tag {
                 0x03 => {
                     es_desc = Some(ESDescriptor::read_desc(reader, desc_size)?);
@@ -270,6 +271,16 @@ fn read_desc<R: Read>(reader: &mut R) -> Result<(u8, u32)> {
     }
 
     Ok((tag, size))
+}
+
+// a descriptor lies inside the box / descriptor that contains it
+fn check_desc_size<S: Seek>(seeker: &mut S, desc_size: u32, end: u64) -> Result<()> {
+    if seeker.stream_position()? + desc_size as u64 > end {
+        return Err(Error::InvalidData(
+            "descriptor extends beyond the end of its container",
+        ));
+    }
+    Ok(())
 }
 
 fn size_of_length(size: u32) -> u32 {
@@ -348,6 +359,7 @@ impl<R: Read + Seek> ReadDesc<&mut R> for ESDescriptor {
         let end = start + size as u64;
         while current < end {
             let (desc_tag, desc_size) = read_desc(reader)?;
+            check_desc_size(reader, desc_size, end)?;
             match desc_tag {
                 0x04 => {
                     dec_config = Some(DecoderConfigDescriptor::read_desc(reader, desc_size)?);
@@ -439,6 +451,7 @@ impl<R: Read + Seek> ReadDesc<&mut R> for DecoderConfigDescriptor {
         let end = start + size as u64;
         while current < end {
             let (desc_tag, desc_size) = read_desc(reader)?;
+            check_desc_size(reader, desc_size, end)?;
             match desc_tag {
                 0x05 => {
                     dec_specific = Some(DecoderSpecificDescriptor::read_desc(reader, desc_size)?);
@@ -542,7 +555,9 @@ fn get_chan_conf<R: Read + Seek>(
 }
 
 impl<R: Read + Seek> ReadDesc<&mut R> for DecoderSpecificDescriptor {
-    fn read_desc(reader: &mut R, _size: u32) -> Result<Self> {
+    fn read_desc(reader: &mut R, size: u32) -> Result<Self> {
+        let start = reader.stream_position()?;
+
         let byte_a = reader.read_u8()?;
         let byte_b = reader.read_u8()?;
         let profile = get_audio_object_type(byte_a, byte_b);
@@ -554,6 +569,12 @@ impl<R: Read + Seek> ReadDesc<&mut R> for DecoderSpecificDescriptor {
         } else {
             freq_index = ((byte_a & 0x07) << 1) + (byte_b >> 7);
             chan_conf = get_chan_conf(reader, byte_b, freq_index, false)?;
+        }
+
+        // the rest of the AudioSpecificConfig is not interpreted
+        let end = start + size as u64;
+        if reader.stream_position()? < end {
+            skip_bytes_to(reader, end)?;
         }
 
         Ok(DecoderSpecificDescriptor {
